@@ -7,15 +7,16 @@ import os, sys, re, json, time, subprocess, fcntl, hashlib, shutil, random
 
 VERIF = os.path.dirname(os.path.dirname(os.path.abspath(__file__)))
 REPO = os.environ.get("VERIF_REPO", "/repo")
-BUILD = os.path.join(VERIF, "build")
+BUILD = os.environ.get("VERIF_BUILD") or os.path.join(VERIF, "build")   # harness binaries, traces, replay files, extracted model
+LOCKDIR = os.path.join(VERIF, "build")                                  # the Coq tree is shared: one lock for everybody
 COQ = os.path.join(VERIF, "coq")
 OCAML = os.path.join(BUILD, "ocaml")
-EVID = os.path.join(VERIF, "evidence")
+EVID = os.environ.get("VERIF_EVIDENCE") or os.path.join(VERIF, "evidence")
 REPLAY = os.path.join(BUILD, "replay")
 HARN = os.path.join(VERIF, "harness")
 JOBS = str(os.cpu_count() or 8)
 
-for d in (BUILD, OCAML, EVID, REPLAY):
+for d in (BUILD, OCAML, EVID, REPLAY, LOCKDIR):
     os.makedirs(d, exist_ok=True)
 
 # release configuration of the pinned suite (DESIGN.md section 0)
@@ -29,10 +30,19 @@ def log(*a):
     print(*a, flush=True)
 
 
+def _limits():
+    """resource limits for every child process: 48 GiB of address space (a runaway harness must not take the machine down)"""
+    import resource
+    try:
+        resource.setrlimit(resource.RLIMIT_AS, (48 << 30, 48 << 30))
+    except Exception:
+        pass
+
+
 def run(cmd, timeout=600, cwd=None, env=None, input=None):
     """run a command, return (rc, stdout+stderr text); never raises on failure/timeout"""
     try:
-        p = subprocess.run(cmd, cwd=cwd, env=env, input=input, stdout=subprocess.PIPE,
+        p = subprocess.run(cmd, cwd=cwd, env=env, input=input, stdout=subprocess.PIPE, preexec_fn=_limits,
                            stderr=subprocess.STDOUT, timeout=timeout, text=True, errors="replace")
         return p.returncode, p.stdout
     except subprocess.TimeoutExpired as e:
@@ -45,7 +55,7 @@ def run(cmd, timeout=600, cwd=None, env=None, input=None):
 def run_split(cmd, timeout=600, cwd=None, env=None, input=None):
     """like run, but stdout and stderr separately: (rc, out, err)"""
     try:
-        p = subprocess.run(cmd, cwd=cwd, env=env, input=input, stdout=subprocess.PIPE,
+        p = subprocess.run(cmd, cwd=cwd, env=env, input=input, stdout=subprocess.PIPE, preexec_fn=_limits,
                            stderr=subprocess.PIPE, timeout=timeout, text=True, errors="replace")
         return p.returncode, p.stdout, p.stderr
     except subprocess.TimeoutExpired as e:
@@ -58,7 +68,7 @@ def run_split(cmd, timeout=600, cwd=None, env=None, input=None):
 class Lock:
     """serialises gen/make/ocaml builds when several checks run concurrently"""
     def __init__(self, name="build"):
-        self.path = os.path.join(BUILD, "." + name + ".lock")
+        self.path = os.path.join(LOCKDIR, "." + name + ".lock")
     def __enter__(self):
         self.f = open(self.path, "w")
         fcntl.flock(self.f, fcntl.LOCK_EX)
@@ -260,7 +270,7 @@ def grep_gate():
 def ocaml_build():
     """Extract/Extract.vo writes coq/extracted/*.ml(i) (Separate Extraction); compile them with the
     hand-written drivers of ocaml/ into build/ocaml/replay"""
-    os.makedirs(os.path.join(COQ, "extracted"), exist_ok=True)
+    os.makedirs(os.path.join(COQ, "extracted_all"), exist_ok=True)
     # Separate Extraction writes only the needed part of each library module, so several
     # extraction commands would overwrite each other's BinNums.ml etc.: merge the item lists of all
     # Extract/Extract*.v files into ONE generated command (Extract/All.v).
@@ -280,22 +290,22 @@ def ocaml_build():
                     items.append(it)
     allv = ("(* GENERATED by tools/vlib.py from Extract/Extract*.v -- one extraction command for all models *)\n"
             "From Coq Require Import Extraction ExtrOcamlBasic NArith ZArith List.\n"
-            "From MiV Require Import %s.\nExtraction Language OCaml.\nCd \"extracted\".\nSeparate Extraction\n  %s.\nCd \"..\".\n"
+            "From MiV Require Import %s.\nExtraction Language OCaml.\nCd \"extracted_all\".\nSeparate Extraction\n  %s.\nCd \"..\".\n"
             % (" ".join(imports), "\n  ".join(items)))
     if write_if_changed(os.path.join(COQ, "Extract", "All.v"), allv):
-        for f in os.listdir(os.path.join(COQ, "extracted")):
-            os.remove(os.path.join(COQ, "extracted", f))
+        for f in os.listdir(os.path.join(COQ, "extracted_all")):
+            os.remove(os.path.join(COQ, "extracted_all", f))
     lines = open(os.path.join(COQ, "_CoqProject")).read().splitlines()
     if "Extract/All.v" not in lines:
         open(os.path.join(COQ, "_CoqProject"), "a").write("Extract/All.v\n")
-    if not os.listdir(os.path.join(COQ, "extracted")):
+    if not os.listdir(os.path.join(COQ, "extracted_all")):
         try: os.remove(os.path.join(COQ, "Extract", "All.vo"))
         except OSError: pass
     ok, txt, cmd = coq_make(["Extract/All.vo"])
     if not ok:
         return False, txt
     with Lock():
-        ext = os.path.join(COQ, "extracted")
+        ext = os.path.join(COQ, "extracted_all")
         names = set()
         for f in os.listdir(ext):
             if f.endswith((".ml", ".mli")):
